@@ -89,7 +89,8 @@ def gcRoots (g : GcInfo) : List Ent :=
   (g.m.elems.zipIdx.filterMap fun p => match p.1.mode with
     | .active t _ => if t.getD 0 < g.nit then some ("e", p.2) else none
     | .declared => some ("e", p.2)
-    | .passive => none)
+    | .passive => none) ++
+  g.m.roots
 
 /-- worklist closure with its stack made visible: (todo, visited) after `fuel` iterations -/
 def closureSt (succ : Ent → List Ent) : Nat → List Ent → List Ent → List Ent × List Ent
@@ -113,6 +114,23 @@ def usedSet (g : GcInfo) : List Ent :=
   let anyData := u.any (·.1 = "d")
   let anyMem := u.any (·.1 = "m")
   if anyData && !anyMem && (g.nim + g.m.mems.length > 0) then u ++ [("m", 0)] else u
+
+/-- every entity a module can name: the index ranges of its seven spaces (type ids include the
+    function-entry types handed out while parsing) -/
+def entUniverse (g : GcInfo) : List Ent :=
+  (List.range (g.nif + g.pfs.length)).map (("f", ·)) ++
+  (List.range (g.nit + g.m.tables.length)).map (("t", ·)) ++
+  (List.range (g.nim + g.m.mems.length)).map (("m", ·)) ++
+  (List.range (g.nig + g.m.globals.length)).map (("g", ·)) ++
+  (List.range g.m.elems.length).map (("e", ·)) ++
+  (List.range g.m.datas.length).map (("d", ·)) ++
+  (List.range ((distinctSigs g.m.sigs).length + g.pfs.length)).map (("y", ·))
+
+/-- the module's references stay in range: roots and successor edges lead to entities that exist
+    (what validation guarantees; decidable, evaluated by the driver on every case) -/
+def gcWF (g : GcInfo) : Bool :=
+  let U := entUniverse g
+  (gcRoots g).all U.contains && U.all fun x => (gcSucc g x).all U.contains
 
 /-- did the worklist run to completion within the fuel the model gives it? -/
 def usedFinished (g : GcInfo) : Bool :=
